@@ -396,7 +396,7 @@ class Oracle:
                 miss = [w for w in want if not any(w is g for g in out[1])]
                 extra = [g for g in out[1] if not any(w is g for w in want)]
                 if miss and not extra:
-                    what = "drops-" + "-".join(sorted({type(w).__name__ for w in miss}))
+                    what = "drops-" + ("-".join(sorted({type(w).__name__ for w in miss})) if name == "statements" else "members")
                 elif extra and not miss:
                     what = "adds-objects"
                 elif not miss and not extra and len(out[1]) != len(want):
